@@ -134,7 +134,11 @@ func (w *apiWorld) randomOp(r *RNG, depth int, where string) {
 		}
 	case 9:
 		if s := w.pickSrv(r); s != nil {
-			w.do(tag("ServerSocket.OffEvent"), func() { s.OffEvent("e") })
+			if n%4 == 0 {
+				w.do(tag("ServerSocket.OffEvent"), func() { s.OffEvent("e") })
+			} else {
+				w.do(tag("ServerSocket.OnceEvent"), func() { s.OnceEvent("e", handler) })
+			}
 		}
 	case 10:
 		if s := w.pickSrv(r); s != nil {
@@ -298,6 +302,11 @@ func apiScenario(t *testing.T, h *H, idx, procs int) {
 					w.randomOp(&RNG{s: seed + uint64(v)}, 1, "handler:")
 				}
 			})
+			// several handlers for one event (a handler list with spare capacity) and a pending one-shot handler, while other
+			// goroutines register more and the client emits the event
+			s.OnEvent("e", func(v int) {})
+			s.OnEvent("e", func(v int) { time.Sleep(200 * time.Microsecond) })
+			s.OnceEvent("e", func(v int) {})
 			s.OnEvent("q", func(v int, ack func(int)) { ack(v) })
 		})
 	}
